@@ -136,6 +136,15 @@ def gen_for(stream, seed):
                 # small events finish while others are active
                 f = rng.choice([1e-3, 1e-5, 1e-7])
                 ev["impact"] = {k: v * f for k, v in ev["impact"].items()}
+        caps = [ev for ev in sc["events"] if ev["type"] != "arbitrary"]
+        if len(caps) >= 2 and rng.random() < 0.4:
+            big, small = caps[0], caps[1]
+            big["dur"] = max(big["dur"], 4)
+            small["occ"] = big["occ"] + rng.randint(1, 2)
+            small["dur"] = 1
+            small["emf"] = big["emf"]
+            small["impact"] = {k: v * rng.choice([1e-6, 3e-7]) for k, v in big["impact"].items()}
+            small["house"] = None
         sc["stream"] = "multi"
         return sc
     if stream == "early":
@@ -192,7 +201,7 @@ def gen_for(stream, seed):
         for ev in sc["events"]:
             if ev["type"] == "arbitrary":
                 continue
-            new = rng.choice([1, 10**3, 10**6, 800, 2_500_000])
+            new = rng.choice([1, 10**3, 10**6, 800, 2_500_000, 921.3])       # (921.3: thousands of another currency)
             ratio = ev["emf"] / new
             ev["impact"] = {k: v * ratio for k, v in ev["impact"].items()}
             if ev.get("house"):
